@@ -617,6 +617,16 @@ def run_cost(case, ctx):
                                 again_is_result_without_zero_width=(isinstance(again, dict) and plain(again) == nondeg
                                                                     and nondeg != plain(res))))
         ctx.label('cost-collapsed')
+        if all(len(ivs) == 1 for ivs in res.values()):
+            # the same bounds written in the other accepted mask format, one (min, max) pair per parameter (what
+            # tools.solver_bounds produces)
+            pair = {int(p): (float(ivs[0][0]), float(ivs[0][1])) for p, ivs in res.items()}
+            again2 = ct.collapse_cost(mon, clip=clip, limit=limit, samples=samples, mask=copy.deepcopy(pair))
+            ctx.expect(again2 == {}, 'C11.cost_idempotent',
+                       lambda: dict(result=repr(res), mask_as_pairs=repr(pair), again=repr(again2),
+                                    again_is_result_without_zero_width=(isinstance(again2, dict) and plain(again2) == nondeg
+                                                                        and nondeg != plain(res))))
+            ctx.label('cost-mask-as-(min,max)-pairs')
     ctx.nontrivial(bool(res))
 
 
